@@ -267,6 +267,25 @@ def Op.circBatch (k n : Nat) (h : V α) : Op α where
 
 end circ
 
+/-! ### closed-form classes (`_diag.py`, `_matrix.py`): the operators their overrides of `.T .H .conj() gram_op + - * / @` build -/
+
+section closed
+variable {α : Type}
+
+/-- `Diagonal(d)` with `d.shape == input_shape` (also `ScaledIdentity`: constant `d`, `Identity`: `d = 1`):
+    `_eval = d * x`; the adjoint is derived automatically (`conj(d) * y`) -/
+def Op.diag [Mul α] [HasConj α] (n : Nat) (d : V α) : Op α where
+  nin := n
+  nout := n
+  eval := fun x i => d i * x i
+  adj := fun y i => conj (d i) * y i
+
+/-- matrix product `A @ B` of an `m×k` and a `k×n` array (`MatrixOperator.__call__(MatrixOperator)`, `gram_op`) -/
+def matMul [Add α] [Mul α] [Zero α] (k : Nat) (A B : Nat → Nat → α) : Nat → Nat → α :=
+  fun i j => sumTo k (fun t => A i t * B t j)
+
+end closed
+
 /-! ### Circular convolution as coded (transform domain) -/
 
 section spectral
